@@ -121,12 +121,16 @@ def run_case(case):
                 obs['kill_withdrawn_runs'] = 1
         if any(e['act'][0] == 'abort_task' for e in case['plan']):
             ab = next((a for a in rec['acts'] if a['kind'] == 'abort_task'), None)
-            if ab is None or not ab['phase'].startswith('waiting/stepping') or 'paus' in ab['phase']:
+            blocked_in_wait = ab is not None and ab['phase'].startswith('waiting/stepping') and 'paus' not in ab['phase']
+            blocked_paused = ab is not None and ab['phase'].endswith('/paused') and 'stepping' not in ab['phase']
+            if blocked_paused:
+                obs['stepping_task_cancelled_while_paused'] = 1
+            if not (blocked_in_wait or blocked_paused):
                 # the task was not blocked in the wait when it was cancelled (a step cancelled half way is run again: not a matter
                 # of wake-ups)
                 viol = []
                 obs['abort_elsewhere'] = 1
-            else:
+            elif blocked_in_wait:
                 obs['stepping_task_cancelled_in_wait'] = 1
         obs['plain_runs'] = 1
         obs['continuations_checked'] = sum(1 for e in rec['events'] if e[0] == 'trace' and e[1] == 'enter')
